@@ -10,7 +10,7 @@ import sys
 
 rnd = sys.argv[1] if len(sys.argv) > 1 else "1"
 rows = []
-for d in sorted(glob.glob("/verif/seeded/C??" + ("-2" if rnd == "2" else ""))):
+for d in sorted(glob.glob("/verif/seeded/C??" + ("" if rnd == "1" else "-" + rnd))):
     m = json.load(open(os.path.join(d, "meta.json")))
     pid = m["property"]
     checks = m.get("validated", {}).get("checks_run", {})
@@ -25,7 +25,7 @@ for d in sorted(glob.glob("/verif/seeded/C??" + ("-2" if rnd == "2" else ""))):
 
     def cell(t):
         return " ".join(str(t).split()).replace("|", "/")[:230]
-    rows.append("| %s%s | %s | %s | %s |" % (pid, " (2nd)" if rnd == "2" else "", cell(m["summary"]), cell(m["needs"]), verdict))
+    rows.append("| %s%s | %s | %s | %s |" % (pid, "" if rnd == "1" else " (round %s)" % rnd, cell(m["summary"]), cell(m["needs"]), verdict))
 print("| property | seeded change | needs | quick check |")
 print("|---|---|---|---|")
 print("\n".join(rows))
